@@ -3,6 +3,7 @@
 package main
 
 import (
+	"fmt"
 	"strings"
 	"sync"
 	"time"
@@ -31,6 +32,29 @@ func init() {
 		started := false
 		return func(in map[string]any) string {
 			var obs []string
+			if str(in, "op") == "stopwhilelow" {
+				// the watcher holds the pipeline paused because the disk is low; a stop request must still get through
+				if !started {
+					started = true
+					config.Get().MinSpaceRequired = 1e-9
+					go watchers.WatchDiskSpace(".", 2*time.Millisecond)
+					time.Sleep(10 * time.Millisecond)
+				}
+				config.Get().MinSpaceRequired = 1073741824
+				deadline := time.Now().Add(time.Second)
+				for !pause.IsPaused() && time.Now().Before(deadline) {
+					time.Sleep(time.Millisecond)
+				}
+				wasPaused := pause.IsPaused()
+				done := make(chan struct{})
+				go func() { watchers.StopDiskWatcher(); close(done) }()
+				select {
+				case <-done:
+					return fmt.Sprintf("stopped pausedBefore=%v", wasPaused)
+				case <-time.After(3 * time.Second):
+					return fmt.Sprintf("hang pausedBefore=%v: StopDiskWatcher() did not return within 3s while the disk stayed low", wasPaused)
+				}
+			}
 			if !started {
 				started = true
 				config.Get().MinSpaceRequired = 1e-9
